@@ -11,6 +11,7 @@
 #include "../num_traits/rep_of.h"
 #include "../num_traits/scale.h"
 #include "../num_traits/to_rep.h"
+#include "../used_digits.h"
 #include "definition.h"
 
 #include <type_traits>
@@ -22,9 +23,10 @@ namespace cnl {
             ShiftDigits, ScaleRadix, elastic_integer<ScalarDigits, ScalarNarrowest>> {
         [[nodiscard]] constexpr auto operator()(
                 elastic_integer<ScalarDigits, ScalarNarrowest> const& s) const
-                -> elastic_integer<ShiftDigits + ScalarDigits, ScalarNarrowest>
+                -> elastic_integer<ShiftDigits * _impl::used_digits(ScaleRadix - 1) + ScalarDigits, ScalarNarrowest>
         {
-            using result_type = elastic_integer<ShiftDigits + ScalarDigits, ScalarNarrowest>;
+            // each digit of the scale radix needs used_digits(ScaleRadix-1) binary digits (1 for radix 2, 4 for radix 10)
+            using result_type = elastic_integer<ShiftDigits * _impl::used_digits(ScaleRadix - 1) + ScalarDigits, ScalarNarrowest>;
             using result_rep = _impl::rep_of_t<result_type>;
             return _impl::from_rep<result_type>(
                     scale<ShiftDigits, ScaleRadix, result_rep>()(_impl::to_rep(s)));
